@@ -21,12 +21,12 @@ function makeWorld (seed, sandboxRef) {
   const hash = (str) => { let h = (seed * 2654435761) >>> 0; for (let i = 0; i < str.length; i++) h = (Math.imul(h ^ str.charCodeAt(i), 16777619)) >>> 0; return h >>> 3 }
   const next = (name) => { const n = (uses.get(name) || 0) + 1; uses.set(name, n); return hash(name + '#' + n) }
   const names = new WeakMap()
-  const REBINDABLE = ['a', 'b', 'c', 's', 'x', 'y', 'z', 'k']
+  const REBINDABLE = ['a', 'b', 'x', 'y', 's']
   // a call or an implicit coercion may run user code that rebinds a free variable: this is what makes
   // "which value of `a` does the expression see" observable
   function maybeRebind (why) {
     const h = hash('rebind:' + why)
-    if (h % 4 !== 0 || !sandboxRef.box) return
+    if (h % 3 !== 0 || !sandboxRef.box) return
     const v = REBINDABLE[(h >>> 2) % REBINDABLE.length]
     const n = (uses.get('rb:' + v) || 0) + 1; uses.set('rb:' + v, n)
     sandboxRef.box[v] = obs(v + "'" + n, 0)
